@@ -100,3 +100,8 @@ LEVEL_NOTE = ("Trusted: Lean kernel; axioms propext/Classical.choice/Quot.sound;
               "(sampling) for the tie model<->code; arch intrinsics (add_with_carry etc.) at their documented contracts; "
               "frontier kernels listed in evidence are modelled as their specification, not verified.")
 TECHNIQUE = "Lean 4 refinement proofs (induction over word lists, all W) + differential correspondence model vs real code"
+
+# Tie A: IBig sign tables regenerated from integer/src/{add_ops,mul_ops}.rs on every run
+USES_GEN = True
+GEN_PROPS = ["Dashu.Props.GenInt"]
+GEN_AUDIT = ["Dashu.Audit.GenInt"]
